@@ -208,6 +208,7 @@ class Explorer:
         oracle=None,
         call_value=None,
         fold_constants: bool = True,
+        selfcls=None,
     ) -> None:
         self.prog = prog
         self.env = dict(env or {})
@@ -223,6 +224,8 @@ class Explorer:
         self.call_value = call_value  # callable(fi, call node, resolved funcs) -> expression standing for the call's value | None
         self.watch = watch  # predicate on syntax nodes: an "expr" event with the substituted node is emitted for each match
         self.fold_constants = fold_constants  # scalar module-level constants (TAG = 1, KEY = "edges") read as their value
+        self.selfcls = selfcls  # the concrete class of `self` (a method of a base class explored for one subclass)
+        self._cconst: dict = {}
         self._scalars: dict = {}
         self._count = 0
         self._comp_of: dict = {}
@@ -248,6 +251,10 @@ class Explorer:
                 d = dotted(n)
                 if d and d in store and d.split(".")[0] not in shadow:
                     return copy.deepcopy(store[d])
+                if self.fold_constants and isinstance(n.value, ast.Name) and n.value.id in ("self", "cls") and n.value.id not in shadow and (n.value.id not in store or (isinstance(store[n.value.id], ast.Name) and store[n.value.id].id == n.value.id)) and self._stack:
+                    c = self._class_const(n.attr)
+                    if c is not None:
+                        return copy.deepcopy(c)
             if isinstance(n, ast.NamedExpr):
                 # the binding itself is done by _bind_walrus before; the expression reads as its value
                 return rb(n.value, shadow)
@@ -376,6 +383,66 @@ class Explorer:
         if not rets or any(r.value is None or (isinstance(r.value, ast.Constant) and r.value.value is None) or isinstance(r.value, (ast.IfExp, ast.Name, ast.BoolOp)) for r in rets):
             return False
         return _always_exits(list(f.node.body))
+
+    def _class_const(self, attr: str):
+        """the value of a class-level constant read through self / cls: a literal, a dotted name (Unit.kpc) or a tuple
+        of those, assigned in the class body and never stored on the instance.  Looked up from the concrete class when
+        it is known (selfcls); otherwise only when no subclass of the defining class redefines the name."""
+        from .model import ClassInfo
+
+        fi = self._stack[-1]
+        base = fi.cls or (fi.parent.cls if fi.parent is not None else None)
+        start = self.selfcls or base
+        if start is None:
+            return None
+        key = (start.name, id(start), attr)
+        if key in self._cconst:
+            return self._cconst[key]
+
+        def simple(v) -> bool:
+            if isinstance(v, ast.Constant):
+                return True
+            if isinstance(v, (ast.Attribute, ast.Name)):
+                return bool(dotted(v)) and isinstance(v, ast.Attribute)
+            if isinstance(v, ast.Tuple):
+                return all(simple(x) for x in v.elts)
+            if isinstance(v, ast.Dict):
+                return all(k is not None and simple(k) for k in v.keys) and all(simple(x) for x in v.values)
+            return False
+
+        def body_value(c):
+            for st_ in c.node.body:
+                tgt = val = None
+                if isinstance(st_, ast.Assign) and len(st_.targets) == 1:
+                    tgt, val = st_.targets[0], st_.value
+                elif isinstance(st_, ast.AnnAssign) and st_.value is not None:
+                    tgt, val = st_.target, st_.value
+                if isinstance(tgt, ast.Name) and tgt.id == attr:
+                    return val
+            return None
+
+        out = None
+        try:
+            mro = [k for k in self.prog.mro(start) if isinstance(k, ClassInfo)]
+        except Exception:  # noqa: BLE001
+            mro = [start]
+        stored = any(isinstance(x, ast.Attribute) and isinstance(x.ctx, ast.Store) and x.attr == attr and isinstance(x.value, ast.Name) and x.value.id in ("self", "cls") for c in mro for m in c.methods.values() for x in ast.walk(m.node))
+        if not stored and not any(attr in c.methods for c in mro):
+            for c in mro:
+                v = body_value(c)
+                if v is not None:
+                    if simple(v):
+                        out = v
+                    break
+            if out is not None and self.selfcls is None:
+                try:
+                    subs = [k for k in self.prog.subclasses(start) if k is not start]
+                except Exception:  # noqa: BLE001
+                    subs = []
+                if any(body_value(k) is not None for k in subs):
+                    out = None
+        self._cconst[key] = out
+        return out
 
     def _module_scalar(self, name: str):
         """Constant node for a module-level name bound once to a str / bytes / int / float scalar (directly or computed
